@@ -47,6 +47,16 @@ def _pattern_strategy():
         st.sampled_from([r'(?i)LINEAR', r'(?i)conv2D', r'(?i)^FC', r'(?x) fc \d', r'(fc)\d?\.\1', r'(\d)\.\1', r'(?P<n>head)', r'(?P<n>fc)', r'(?s)a.b',
                          r'(m)(\d)\.\1\2', r'(?i)my']),
         st.sampled_from([r'(?i)LINEAR', r'(?i)conv2D', r'(fc)\d?\.\1', r'(\d)\.\1', r'(?P<n>head)', r'(?P<n>fc)', r'(m)(\d)\.\1\2']),
+        # patterns sensitive to what exactly the subject string is (its true start / end, characters that are not in any name):
+        # they tell a search over the name and over the class name apart from a search over some concatenation of the two
+        frag.map(lambda f: f + r'\Z'),
+        frag.map(lambda f: r'\A' + f),
+        frag.map(lambda f: r'\A' + f + r'\Z'),
+        frag.map(lambda f: f + r'[^\w.]'),
+        frag.map(lambda f: f + r'\s'),
+        frag.map(lambda f: f + r'(?!.)'),
+        frag.map(lambda f: r'(?<!.)' + f),
+        st.sampled_from([r'\s', r'\W\D', r'[^\w.]', r'\n', r'\d\D[A-Z]', r'[a-z0-9]\W[A-Z]', r'(?s)\d.[A-Z]', r'\w\s\w', r'\ALinear\Z', r'\AConv2d\Z', r'\A\d+\Z']),
     )
 
 
